@@ -382,6 +382,11 @@ func init() {
 						c.direct = append(c.direct, &directResult{Name: pn + "/compound-assignment-needs-a-pure-target", OK: r.requires("FilterVarPureOp", "x"), Detail: "x = x op y evaluates x twice, x op= y once"})
 						continue
 					}
+					if g.Name == "valSwap" && pat != "$tmp := $y; $y = $x; $x = $tmp" {
+						c.direct = append(c.direct, &directResult{Name: pn + "/rewrite-has-an-equivalence-lemma", OK: false,
+							Detail: fmt.Sprintf("pattern %q -> %q: the swap lemma covers a temporary that is declared by the first statement (`$tmp := $y`) and therefore cannot be read afterwards; with any other shape the parallel assignment drops a store that later code may observe", pat, rw)})
+						continue
+					}
 					if g.Name == "valSwap" {
 						// tmp := y; y = x; x = tmp   versus   y, x = x, y  (operands denote variables)
 						c.addLemma(pn+"/swap-is-equivalent", []string{"(declare-fun x0 () Int)", "(declare-fun y0 () Int)"}, nil,
